@@ -74,17 +74,6 @@ def allRev (ds : List FileDesc) : List Bytes := ds.reverse.flatMap (fun d => d.l
 def fromEntry (ds : List FileDesc) (j k : Nat) : List Bytes :=
   (((ds.getD j {lines := []}).lines).take (k + 1)).reverse ++ allRev (ds.take j)
 
-def findStamp (tsOf : Bytes → Int) (lines : List Bytes) (ts : Int) : Option Nat :=
-  lines.findIdx? (fun l => tsOf l == ts)
-
-/-- First file (newest first) holding the timestamp: `(file, line)`. -/
-def findStampFiles (tsOf : Bytes → Int) (ds : List FileDesc) (ts : Int) : Nat → Option (Nat × Nat)
-  | 0 => none
-  | j + 1 =>
-    match findStamp tsOf (ds.getD j {lines := []}).lines ts with
-    | some k => some (j, k)
-    | none => findStampFiles tsOf ds ts j
-
 /-- The three reports the property allows for an absent timestamp, and which one
 belongs to which position (`depth` is `errTSNotFound` too). -/
 def absentClassOK (st : List Int) (ts : Int) (e : Err) : Bool :=
@@ -126,13 +115,42 @@ def checkNext (rem : List Bytes) (n cnt : Nat) (endc : Option Err) (hash : UInt6
 
 def noPromise (n : Nat) : List (Option (List Bytes)) := List.replicate n none
 
+/-- Everything the monitor needs to know about the files of a block, computed once
+(`mkCtx`): the line view and, per file, the timestamps of the lines. -/
+structure Ctx where
+  ds : List FileDesc
+  stamps : List (List Int)
+  readableF : List Bool
+  seekableF : List Bool
+  allReadable : Bool
+  allSeekable : Bool
+
+def mkCtx (tsOf : Bytes → Int) (ds : List FileDesc) : Ctx :=
+  let st := ds.map (stampsOf tsOf)
+  let rd := ds.map readable
+  { ds := ds, stamps := st, readableF := rd,
+    seekableF := List.zipWith (fun r s => r && stampsOK s) rd st,
+    allReadable := rd.all id,
+    allSeekable := rd.all id && stampsOK st.flatten }
+
+def findStampIdx (st : List Int) (ts : Int) : Option Nat := st.findIdx? (· == ts)
+
+/-- First file (newest first) holding the timestamp: `(file, line)`. -/
+def findStampFilesIdx (st : List (List Int)) (ts : Int) : Nat → Option (Nat × Nat)
+  | 0 => none
+  | j + 1 =>
+    match findStampIdx (st.getD j []) ts with
+    | some k => some (j, k)
+    | none => findStampFilesIdx st ts j
+
 /-- One step of the monitor: `(broken clause, next spec state)`. -/
-def specStep (tsOf : Bytes → Int) (ds : List FileDesc) (st : SpecState) (op : Op) (o : Obs) :
+def specStep (c : Ctx) (st : SpecState) (op : Op) (o : Obs) :
     Option String × SpecState :=
+  let ds := c.ds
   match op, o with
   | .fstart k, .start ok =>
     let d := ds.getD k {lines := []}
-    if readable d then
+    if c.readableF.getD k false then
       (if ok then none else some "C20.start", ⟨st.fcur.set k (some d.lines.reverse), none⟩)
     else (none, ⟨st.fcur.set k none, none⟩)
   | .fnext k n, .next cnt endc hash =>
@@ -143,18 +161,19 @@ def specStep (tsOf : Bytes → Int) (ds : List FileDesc) (st : SpecState) (op : 
     | none => (none, ⟨st.fcur, none⟩)
   | .fseek k ts, .seek res =>
     let d := ds.getD k {lines := []}
-    if seekable tsOf d then
-      match findStamp tsOf d.lines ts, res with
+    let stamps := c.stamps.getD k []
+    if c.seekableF.getD k false then
+      match findStampIdx stamps ts, res with
       | some i, none => (none, ⟨st.fcur.set k (some ((d.lines.take (i + 1)).reverse)), none⟩)
       | some _, some _ => (some "C20.seek.present", ⟨st.fcur.set k none, none⟩)
       | none, none => (some "C20.seek.absent-ok", ⟨st.fcur.set k none, none⟩)
       | none, some e =>
-        if absentClassOK (stampsOf tsOf d) ts e then (none, ⟨st.fcur, none⟩)
+        if absentClassOK stamps ts e then (none, ⟨st.fcur, none⟩)
         else (some (if d.lines.isEmpty then "C20.seek.absent-class:empty-file" else "C20.seek.absent-class"),
               ⟨st.fcur, none⟩)
     else (none, ⟨st.fcur.set k none, none⟩)
   | .start, .start ok =>
-    if ds.all readable then
+    if c.allReadable then
       (if ok then none else some "C20.start", ⟨noPromise ds.length, some (allRev ds)⟩)
     else (none, ⟨noPromise ds.length, none⟩)
   | .next n, .next cnt endc hash =>
@@ -164,8 +183,8 @@ def specStep (tsOf : Bytes → Int) (ds : List FileDesc) (st : SpecState) (op : 
       (bad, ⟨noPromise ds.length, if bad.isNone then some (rem.drop n) else none⟩)
     | none => (none, ⟨noPromise ds.length, none⟩)
   | .seek ts, .seek res =>
-    if allSeekable tsOf ds then
-      match findStampFiles tsOf ds ts ds.length, res with
+    if c.allSeekable then
+      match findStampFilesIdx c.stamps ts ds.length, res with
       | some (j, k), none => (none, ⟨noPromise ds.length, some (fromEntry ds j k)⟩)
       | some (j, _), some _ =>
         (some (if (ds.drop (j + 1)).any (fun d => d.lines.isEmpty)
@@ -175,7 +194,7 @@ def specStep (tsOf : Bytes → Int) (ds : List FileDesc) (st : SpecState) (op : 
         -- the multi-file reader reports "too late" by starting over at the newest
         -- entry; allowed only when the timestamp really is later than every
         -- entry of some non-empty file
-        if ds.any (fun d => !d.lines.isEmpty && (stampsOf tsOf d).all (· < ts)) then
+        if c.stamps.any (fun s => !s.isEmpty && s.all (· < ts)) then
           (none, ⟨noPromise ds.length, some (allRev ds)⟩)
         else (some "C20.seek.absent-ok", ⟨noPromise ds.length, none⟩)
       | none, some e =>
@@ -186,7 +205,7 @@ def specStep (tsOf : Bytes → Int) (ds : List FileDesc) (st : SpecState) (op : 
     else (none, ⟨noPromise ds.length, none⟩)
   | _, _ => (some "C20.shape", st)
 
-def specOK (tsOf : Bytes → Int) (ds : List FileDesc) (st : SpecState) (op : Op) (o : Obs) : Bool :=
-  (specStep tsOf ds st op o).1.isNone
+def specOK (c : Ctx) (st : SpecState) (op : Op) (o : Obs) : Bool :=
+  (specStep c st op o).1.isNone
 
 end AGH.C20
